@@ -110,7 +110,7 @@ template<class T> inline std::string jnums(const std::vector<T> &v) {
 // ------------------------------------------------------------------------------------------------
 // Graph specification: the abstract weighted graph the generator produced.  Weights are int64
 // "units"; the real weight is  units * 2^-wshift  (wmode 0: integer / dyadic, exactly summable) or
-// units / 1000  (wmode 1: decimal thousandths, C09 only).
+// units / 1000  (wmode 1: decimal thousandths, C09 only) or units / 1e8 (wmode 2: eight decimals, C09 only).
 // ------------------------------------------------------------------------------------------------
 struct Ed { int u, v; ll w; };
 struct GraphSpec {
@@ -122,6 +122,7 @@ struct GraphSpec {
     bool tie_rich = false;      // weights drawn from <=3 distinct values or regular topology with unit weights
     double weight_of(ll units) const {
         if (wmode == 1) return (double) units / 1000.0;
+        if (wmode == 2) return (double) units / 100000000.0;
         return std::ldexp((double) units, -wshift);
     }
     int m() const { return (int) edges.size(); }
